@@ -39,6 +39,7 @@ struct UfoSpec {
     layers: Vec<LayerSpec>,
     poison: Vec<(usize, usize)>, // (layer, glyph): gets a public.objectLibs lib key after load
     params: String,
+    script: Vec<String>, // JSON arrays: edits applied through the public API after loading, before saving
     legacy: bool, // formatVersion 2 with kerning groups named like glyphs / component bases
 }
 
@@ -246,7 +247,57 @@ fn gen_ufo(rng: &mut Rng, sh: &Shape) -> UfoSpec {
         "layers={} names={} density={} comp_pool={} max_comps={} broken={} dups={} poison={} stale={} cold_base={} legacy={}",
         sh.layers, sh.names, sh.density, sh.comp_pool, sh.max_comps, sh.broken, sh.dups, sh.poison, sh.stale, sh.cold_base, sh.legacy
     );
-    UfoSpec { layers, poison, params, legacy: sh.legacy }
+    UfoSpec { layers, poison, params, script: vec![], legacy: sh.legacy }
+}
+
+/// A small edit script through the public container API, the same for both builds: insert_glyph,
+/// remove_glyph, rename_glyph, get_glyph_mut edits, and the raw map entry (`Layer::entry`):
+/// `or_insert` of names sorting at the beginning / in the middle / at the end of the layer (such
+/// a glyph has no file name and is skipped by save), `and_modify` of an existing glyph, and
+/// rarely an `Occupied::remove` (save then panics, in both builds).
+fn gen_script(rng: &mut Rng, u: &UfoSpec) -> Vec<String> {
+    let mut ops = vec![];
+    let nlayers = if u.legacy { 1 } else { u.layers.len() };
+    let n = rng.range(3, 9);
+    for i in 0..n {
+        let li = rng.below(nlayers as u64) as usize;
+        let mut keys: Vec<&String> = u.layers[li].glyphs.iter().map(|g| &g.key).collect();
+        keys.sort_by(|a, b| a.as_bytes().cmp(b.as_bytes()));
+        if keys.is_empty() {
+            ops.push(format!("[\"insert\",{},{},{}]", li, jstr(&format!("new{}", i)), 7000 + i));
+            continue;
+        }
+        let some = |rng: &mut Rng| keys[rng.below(keys.len() as u64) as usize].clone();
+        let kind = if i == 0 { 3 } else { rng.below(10) };
+        match kind {
+            0 => ops.push(format!("[\"insert\",{},{},{}]", li, jstr(&format!("{}.new{}", some(rng), i)), 7000 + i)),
+            1 => ops.push(format!("[\"insert\",{},{},{}]", li, jstr(&some(rng)), 7100 + i)),
+            2 => ops.push(format!("[\"remove\",{},{}]", li, jstr(&some(rng)))),
+            3 | 4 | 5 => {
+                // raw entry, vacant: a name before all keys / after the middle key / after all keys
+                let name = match (kind + rng.below(3)) % 3 {
+                    0 => format!("!first{}", i),
+                    1 => format!("{}!mid{}", keys[keys.len() / 2], i),
+                    _ => format!("{}~last{}", keys[keys.len() - 1], i),
+                };
+                ops.push(format!("[\"entry_insert\",{},{},{}]", li, jstr(&name), 7200 + i));
+            }
+            6 => ops.push(format!("[\"entry_modify\",{},{},{}]", li, jstr(&some(rng)), rng.range(1, 9))),
+            7 => ops.push(format!("[\"edit\",{},{},{}]", li, jstr(&some(rng)), rng.range(1, 9))),
+            8 => {
+                let (a, b) = (some(rng), if rng.chance(1, 2) { some(rng) } else { format!("renamed{}", i) });
+                ops.push(format!("[\"rename\",{},{},{},{}]", li, jstr(&a), jstr(&b), rng.chance(1, 2)));
+            }
+            _ => {
+                if rng.chance(1, 4) {
+                    ops.push(format!("[\"entry_remove\",{},{}]", li, jstr(&some(rng))));
+                } else {
+                    ops.push(format!("[\"remove\",{},{}]", li, jstr(&format!("absent{}", i))));
+                }
+            }
+        }
+    }
+    ops
 }
 
 fn glif_text(rng: &mut Rng, g: &GlyphSpec) -> String {
@@ -562,7 +613,10 @@ fn gen(a: &Args) {
     let mut index_lines = vec![];
     for (k, sh) in shapes.iter().enumerate() {
         let mut r = rng.fork();
-        let u = gen_ufo(&mut r, sh);
+        let mut u = gen_ufo(&mut r, sh);
+        if k % 2 == 0 {
+            u.script = gen_script(&mut r, &u);
+        }
         let dir = root.join(format!("{:03}", k));
         write_ufo(&mut r, &u, &dir);
         write_sidecar(&u, &root, k, a.seed);
@@ -606,8 +660,8 @@ fn write_sidecar(u: &UfoSpec, root: &Path, k: usize, seed: u64) {
     write_file(
         &root.join(format!("{:03}.json", k)),
         &format!(
-            "{{\"table\":[{}],\"poison\":[{}],\"params\":{},\"seed\":{},\"glyphs\":{},\"broken\":{},\"dup_entries\":{},\"legacy\":{}}}",
-            tb.join(","), poison.join(","), jstr(&u.params), seed, ng, nbroken, ndup, u.legacy
+            "{{\"table\":[{}],\"poison\":[{}],\"script\":[{}],\"params\":{},\"seed\":{},\"glyphs\":{},\"broken\":{},\"dup_entries\":{},\"legacy\":{}}}",
+            tb.join(","), poison.join(","), u.script.join(","), jstr(&u.params), seed, ng, nbroken, ndup, u.legacy
         ),
     );
     let maxl = u.layers.iter().map(|l| l.glyphs.len()).max().unwrap_or(0);
@@ -699,7 +753,22 @@ fn observe(dir: &Path, side: &serde_json::Value, save_to: &Path) -> String {
             let _ = writeln!(o, " G {:?}", g);
         }
     }
-    // post-load operations
+    // post-load operations: the edit script through the public API
+    if let Some(ops) = side["script"].as_array() {
+        for (i, op) in ops.iter().enumerate() {
+            let r = catch(|| apply_op(&mut font, op));
+            let _ = writeln!(o, "OP {} {} {}", i, op[0].as_str().unwrap_or("?"), r.unwrap_or_else(|_| "panic".into()));
+        }
+        if !ops.is_empty() {
+            for l in font.layers.iter() {
+                let mut h = String::new();
+                for g in l.iter() {
+                    let _ = write!(h, "{:?};", g);
+                }
+                let _ = writeln!(o, "POST {:?} n={} {:016x}", l.name(), l.len(), fnv(h.as_bytes()));
+            }
+        }
+    }
     if let Some(ps) = side["poison"].as_array() {
         for p in ps {
             let (ln, gn) = (p[0].as_str().unwrap_or(""), p[1].as_str().unwrap_or(""));
@@ -726,10 +795,91 @@ fn observe(dir: &Path, side: &serde_json::Value, save_to: &Path) -> String {
             for (p, n, h) in t {
                 let _ = writeln!(o, "TREE {} {:016x} {}", n, h, p);
             }
+            // what the saved tree loads back as
+            if side["script"].as_array().map(|a| !a.is_empty()).unwrap_or(false) {
+                match catch(|| Font::load(save_to)) {
+                    Err(_) => o.push_str("RELOAD panic\n"),
+                    Ok(Err(e)) => {
+                        let d = format!("{:?}", e);
+                        let _ = writeln!(o, "RELOAD err\nERRINFO {}", err_variant(&d));
+                    }
+                    Ok(Ok(f2)) => {
+                        o.push_str("RELOAD ok\n");
+                        for l in f2.layers.iter() {
+                            let _ = writeln!(o, "RLAYER {:?} {:?} n={}", l.name(), l.path(), l.len());
+                            for g in l.iter() {
+                                let _ = writeln!(o, " RG {:?} {:016x}", g.name(), fnv(format!("{:?}", g).as_bytes()));
+                            }
+                        }
+                    }
+                }
+            }
         }
     }
     let _ = std::fs::remove_dir_all(save_to);
     o
+}
+
+/// one operation of the edit script; the outcome as text
+fn apply_op(font: &mut Font, op: &serde_json::Value) -> String {
+    let kind = op[0].as_str().unwrap_or("");
+    let li = op[1].as_u64().unwrap_or(0) as usize;
+    let name = op[2].as_str().unwrap_or("");
+    let layer = match font.layers.iter_mut().nth(li) {
+        Some(l) => l,
+        None => return "nolayer".into(),
+    };
+    let mk = |name: &str, w: f64| {
+        let mut g = norad::Glyph::new(name);
+        g.width = w;
+        g
+    };
+    match kind {
+        "insert" => {
+            layer.insert_glyph(mk(name, op[3].as_f64().unwrap_or(0.0)));
+            "ok".into()
+        }
+        "remove" => if layer.remove_glyph(name).is_some() { "some".into() } else { "none".into() },
+        "rename" => match layer.rename_glyph(name, op[3].as_str().unwrap_or(""), op[4].as_bool().unwrap_or(false)) {
+            Ok(()) => "ok".into(),
+            Err(e) => format!("err:{}", err_variant(&format!("{:?}", e))),
+        },
+        "entry_insert" => match norad::Name::new(name) {
+            Ok(n) => {
+                let g = layer.entry(n).or_insert_with(|| mk(name, op[3].as_f64().unwrap_or(0.0)));
+                format!("ok:{}", g.width)
+            }
+            Err(_) => "badname".into(),
+        },
+        "entry_modify" => match norad::Name::new(name) {
+            Ok(n) => {
+                let d = op[3].as_f64().unwrap_or(1.0);
+                layer.entry(n).and_modify(|g| g.height += d);
+                "ok".into()
+            }
+            Err(_) => "badname".into(),
+        },
+        "entry_remove" => match norad::Name::new(name) {
+            Ok(n) => {
+                if let std::collections::btree_map::Entry::Occupied(e) = layer.entry(n) {
+                    e.remove();
+                    "removed".into()
+                } else {
+                    "vacant".into()
+                }
+            }
+            Err(_) => "badname".into(),
+        },
+        "edit" => match layer.get_glyph_mut(name) {
+            Some(g) => {
+                g.width += op[3].as_f64().unwrap_or(1.0);
+                g.note = Some(format!("edited {}", name));
+                "some".into()
+            }
+            None => "none".into(),
+        },
+        _ => "unknown".into(),
+    }
 }
 
 /// the part of an observation that must not depend on the build / thread count / schedule
